@@ -103,6 +103,20 @@ Theorem C08_announcement_always_handed_up :
 Proof. intros s f o q H. unfold on_request. rewrite H. reflexivity. Qed.
 Print Assumptions C08_announcement_always_handed_up.
 
+(* the announcement itself: under the policy "propagate all" a run says goodbye to its neighbours exactly once if its init()
+   completed - setup() failing or exiting, the loop ending by exit(), the stop event or an exception, shutdown() failing: all
+   the same - and not at all otherwise; under "none" never.  For every script. *)
+From OF Require Import Life.Lifecycle_Announce.
+Theorem C08_exit_announced_once :
+  forall k, k_prop_exit k = 3 -> cnt is_sendexit (fst (run k)) = if init_completed k then 1%nat else 0%nat.
+Proof. exact announced_once_under_all. Qed.
+Print Assumptions C08_exit_announced_once.
+
+Theorem C08_exit_never_announced_under_none :
+  forall k, k_prop_exit k = 0 -> cnt is_sendexit (fst (run k)) = 0%nat.
+Proof. exact never_announced_under_none. Qed.
+Print Assumptions C08_exit_never_announced_under_none.
+
 (* Non-vacuity: process() calls exit() in the second iteration under prop_exit='all': one shutdown, a
    clean announcement, fini, COMPLETE, normal return. *)
 Theorem C08_nonvacuous :
